@@ -4,7 +4,7 @@ from __future__ import annotations
 import ast
 
 from ..model import AnalysisError, dotted, norm_text, unparse, walk_no_nested
-from ..q import NONEXC, Fn
+from ..q import find_case_table, NONEXC, Fn
 from .common import fn_of
 
 LEVEL = "other"
@@ -258,17 +258,18 @@ def r5(ctx):
         am = ctx.repo.module(mod)
         v = ctx.repo.try_fold(am, am.get_const_expr("DEFAULT_PORT_NUMBER"))
         ctx.check(v == port, R, f"{gen}:DEFAULT_PORT_NUMBER", am, am.assign_nodes["DEFAULT_PORT_NUMBER"], str(port), repr(v))
-    match = next((x for x in ast.walk(f.node) if isinstance(x, ast.Match)), None)
-    ctx.require(match is not None, "factory.discover: no match on the response type")
+    table = find_case_table(f.node, "response")
+    ctx.require(table is not None, "factory.discover: no case distinction on the response type")
     want = {
         "At4DiscoveryResponse": ("_connect_airtouch_4", {"host": "response.host", "port": "at4_api.DEFAULT_PORT_NUMBER", "airtouch_id": "response.airtouch_id", "serial": "response.serial"}),
         "At5DiscoveryResponse": ("_connect_airtouch_5", {"host": "response.host", "port": "at5_api.DEFAULT_PORT_NUMBER", "airtouch_id": "response.airtouch_id", "serial": "response.serial", "name": "response.name"}),
     }
-    for c in match.cases:
-        ci = ctx.repo.resolve_class(fm, c.pattern.cls) if isinstance(c.pattern, ast.MatchClass) else None
+    for kind, kexpr, cbody in table:
+        ci = ctx.repo.resolve_class(fm, kexpr) if kind == "isinstance" else None
         if ci is None or ci.name not in want:
             continue
         fn_name, kws = want.pop(ci.name)
+        c = type("Case", (), {"body": cbody, "pattern": kexpr})
         calls = [x for s in c.body for x in ast.walk(s) if isinstance(x, ast.Call) and dotted(x.func) == fn_name]
         ok = len(calls) == 1
         got = {k.arg: norm_text(k.value) for k in calls[0].keywords} if ok else {}
@@ -276,7 +277,7 @@ def r5(ctx):
         ctx.check(ok, R, f"discover:{ci.name}", fm, c.pattern, f"{fn_name}({', '.join(f'{k}={v}' for k, v in kws.items())})", str(got))
         apps = [x for s in c.body for x in ast.walk(s) if isinstance(x, ast.Call) and dotted(x.func) == "airtouches.append"]
         ctx.check(len(apps) == 1, R, f"discover:{ci.name}:appended", fm, c.pattern, "the client is appended to the result once", f"{len(apps)} appends")
-    ctx.check(not want, R, "discover:both-generations", fm, match, "both response classes are handled", f"unhandled: {sorted(want)}")
+    ctx.check(not want, R, "discover:both-generations", fm, f.node, "both response classes are handled", f"unhandled: {sorted(want)}")
     for fn_name, reg, cls in (("_connect_airtouch_4", "at4_registry.INSTANCE", "AirTouch4"), ("_connect_airtouch_5", "at5_registry.INSTANCE", "AirTouch5")):
         cf = fm.get_function(fn_name)
         socks = [x for x in ast.walk(cf) if isinstance(x, ast.Call) and (dotted(x.func) or "").endswith("AirTouchSocket")]
